@@ -304,6 +304,9 @@ def run(F, R, tier):
                 "the finished tick is 0 or the clock at the SetProvisionFinished(true) message, and both replies return that variable (%s)" % det,
                 "finished tick definitions / replies: %s" % det)
 
+    R.rule("C16.R6", "the provisioning deadline and the start of the status tasks do not wait for the host")
+    bookkeeping_independent_of_poll(F, R, "C16.R6")
+
     gi = F.body_of(PV + "get_provision_state_internal")
     if not gi:
         R.fail("C16.R5", "C16.R5:anchor-missing:get_provision_state_internal", "-", "anchor-missing=provision::get_provision_state_internal")
@@ -370,3 +373,24 @@ def run(F, R, tier):
                 R.check(org and all(o[0] == "call" and q.ends(o[1], "get_provision_state_internal") and o[3][-1:] == ("error_message",) for o in org),
                         "C16.R5", "C16.R5:%s:error-text" % h["id"], "-", "errorMessage = get_provision_state_internal().error_message",
                         "errorMessage origins: %s" % sorted(map(str, org)))
+
+
+def bookkeeping_independent_of_poll(F, R, rule):
+    """in the key keeper's poll loop the provisioning deadline (provision_timeup) and the start of the event / status tasks
+    (start_event_threads) are reached in every iteration whatever the host answers: they are not behind the status poll"""
+    lp = F.body_of(AP + "key_keeper::KeyKeeper::loop_poll")
+    if not lp:
+        R.fail(rule, "%s:anchor-missing:loop_poll" % rule, "-", "anchor-missing=KeyKeeper::loop_poll")
+        return
+    B = mir.Body(lp, F)
+    R.touched(lp["id"])
+    polls = [c[0] for c in B.calls_named("key::get_status")]
+    for name in ("provision::provision_timeup", "provision::start_event_threads"):
+        cs = [c[0] for c in B.calls_named(name)]
+        hdr = q.outer_loop_header(B, cs[0]) if cs else None
+        ok = bool(cs) and bool(polls) and hdr is not None and B.path([hdr], cs, cut_blocks=polls) is not None
+        R.check(ok, rule, "%s:%s:%s-not-behind-poll" % (rule, lp["id"], name.rsplit("::", 1)[-1]), q.where(B, cs[0]) if cs else "-",
+                "%s is reachable from the top of a poll iteration without passing the status poll (a failing or garbage-answering host "
+                "cannot postpone it)" % name.rsplit("::", 1)[-1],
+                "%s is only reached after key::get_status(): while the host fails or answers garbage the `continue` of the failed poll skips it "
+                "(deadline never fires / status tasks never start)" % name.rsplit("::", 1)[-1])
